@@ -205,7 +205,11 @@ CALLS = {
 LINK_LOSSES = ("peer-close", "link-eof", "link-error", "local-close", "disconnect", "garbage")
 PROXY_LOSSES = ("proxy-exit", "proxy-kill")
 MOMENTS = ("call-first", "loss-first", "together")
-ERRNOS = (errno.ECONNRESET, errno.ETIMEDOUT, errno.EHOSTUNREACH, errno.EPIPE, errno.ENETDOWN, errno.ECONNABORTED, errno.EIO, errno.ENOTCONN)
+# errno values a dead connection reports. Not in the domain: EAGAIN (documented by Packetizer.read_all as "no data
+# yet") and ETIMEDOUT: OSError(ETIMEDOUT) *is* TimeoutError == socket.timeout since Python 3.10, i.e. the idle-poll
+# signal of the socket-like API; a real socket reports it once and then reads EOF, whereas Link.set_error is
+# persistent, so a persistent ETIMEDOUT would model a link that is merely idle, not a lost one.
+ERRNOS = (errno.ECONNRESET, errno.ENETUNREACH, errno.EHOSTUNREACH, errno.EPIPE, errno.ENETDOWN, errno.ECONNABORTED, errno.EIO, errno.ENOTCONN)
 
 
 def applicable(call, loss, moment, timeout, via):
@@ -580,10 +584,11 @@ class Env:
         if held:
             # encrypted phase, link held: deliver the peer's pending packet with its last byte (MAC/tag) flipped
             c = self.rx.drop_pending(0)
-            if c is None:
-                c = b"\x00" * 64
-            self.rx.inject(c[:-1] + bytes([c[-1] ^ 0x40]))
-            return
+            if c is not None:
+                self.rx.inject(c[:-1] + bytes([c[-1] ^ 0x40]))
+                return
+            # nothing pending (a racing call has not made the peer talk yet): open the link, use the ordinary flavours
+            self.rx.set_hold(False)
         if flavor % 2 == 0:
             done = []
 
@@ -600,31 +605,29 @@ class Env:
 
     # -- teardown: nothing may outlive the case
     def cleanup(self):
+        """Unblock and end everything this case started, whatever state the tested code is in (a close() that
+        hangs must not hang the harness): first cut the primitives the threads sit on, then close politely."""
         leaked = 0
         for ev in self.events:
             ev.set()
-        for t in (self.tested, self.peer):
-            if t is None:
-                continue
+        transports = [t for t in (self.tested, self.peer) if t is not None]
+        for t in transports:
             try:
-                t.close()
+                t.packetizer.close()  # closes the socket-like object too; makes stop_thread()'s join loop end
             except Exception:
                 pass
         if self.link is not None:
             self.link.close()
+        closers = [run_thread(t.close, "c13-cleanup-close") for t in transports]
+        for th in closers:
+            th.join(10)
+            leaked += th.is_alive()
         if self.chan is not None:
             try:
                 self.chan._unlink()
             except Exception:
                 pass
-        for t in (self.tested, self.peer):
-            if t is None:
-                continue
-            # a transport that is "inactive" ignores close(): make sure its pieces are shut anyway
-            try:
-                t.packetizer.close()
-            except Exception:
-                pass
+        for t in transports:
             with t.lock:
                 t.server_accept_cv.notify_all()
             tm = getattr(t.packetizer, "_Packetizer__timer", None)
@@ -633,8 +636,8 @@ class Env:
         for th in self.threads:
             th.join(5)
             leaked += th.is_alive()
-        for t in (self.tested, self.peer):
-            if t is not None and t.ident is not None:
+        for t in transports:
+            if t.ident is not None:
                 t.join(5)
                 leaked += t.is_alive()
         if self.bridge is not None:
@@ -810,7 +813,8 @@ def record(ctx, case, r):
     if r.get("flaky"):
         ctx.inconc("timeout-not-reproduced-3x:%s|%s" % (r["flaky"], bucket_of(case)))
     if r["status"] == "inconclusive":
-        ctx.inconc(r["detail"].split(":")[0] + ":" + case["call"])
+        # key: phase + short reason (text up to the second colon, reprs cut off) + via
+        ctx.inconc(":".join(x.strip() for x in r["detail"].split(":")[:2])[:60] + " via=" + case["via"])
         ctx.case(case, False, ["inconclusive"])
         return
     cls = ["call:" + case["call"], "loss:" + case["loss"], "moment:" + case["moment"], "via:" + case["via"], "timeout:%s" % case["timeout"]] + r["classes"]
